@@ -105,6 +105,17 @@ func profileByName(name string) Profile {
 		p.Reopen = 8
 		p.Oversize, p.DoneCalls, p.ReadOnly, p.Abort = 0, 0, 10, 5
 		p.SparseReads = true
+	case "sparsemb":
+		// sparse mode, several buckets whose names have equal length (bucket+key concatenations are unambiguous)
+		p.WKV = 1
+		p.Modes = []int{2}
+		p.Buckets = []string{"b1", "b2", "c1"}
+		p.Keys = []string{"a", "ab", "abc", "k1", "k2", "z", "k10"}
+		p.Segs = []int{150, 250, 350}
+		p.Txs = 20
+		p.Reopen = 15
+		p.Oversize, p.DoneCalls = 0, 0
+		p.SparseReads = true
 	case "bigtx":
 		// long write transactions interleaving several buckets with order-sensitive blind writes (C13)
 		p.WKV, p.WList, p.WSet, p.WZSet = 2, 3, 2, 3
